@@ -97,8 +97,11 @@ class Profile(object):
     def __init__(self, name, weights, fault_share=0.3, length=(3, 15), long_share=0.15,
                  long_length=(16, 40), max_objs=40, names=None, rare_name_share=0.05,
                  backends=("xml", "json", "yaml"), dtypes=None, detached_share=0.35,
-                 save_only_backends=(), wfilter_share=0.0):
+                 save_only_backends=(), wfilter_share=0.0, deep_range=(33, 40), deep_room=45):
         self.name = name
+        # levels of the one deep branch a run may build, and the room it needs in the universe
+        self.deep_range = deep_range
+        self.deep_room = deep_room
         self.weights = dict(weights)
         self.fault_share = fault_share
         self.length = length
@@ -1030,7 +1033,7 @@ class Gen(object):
 
     def g_deep_chain(self):
         """A branch nested deeper than a walker's idea of 'deep enough' (33 to 40 levels)."""
-        if getattr(self, "_deep_chains", 0) >= 1 or not self.room(45):
+        if getattr(self, "_deep_chains", 0) >= 1 or not self.room(self.p.deep_room):
             return None
         t = self.pick(self.conts())
         if t is None or len(self.U.ancestors(t)) > 3:
@@ -1039,7 +1042,8 @@ class Gen(object):
         if name is None:
             return None
         self._deep_chains = 1
-        return {"op": "deep_chain", "t": self.cref(t), "name": name, "n": self.rng.randint(33, 40)}
+        return {"op": "deep_chain", "t": self.cref(t), "name": name,
+                "n": self.rng.randint(*self.p.deep_range)}
 
     def g_custom_again(self):
         kept = self.U.__dict__.get("kept_custom") or []
